@@ -9,3 +9,14 @@ c = contract('pynetdicom2._get_storage_file')
 c.prop('C15')
 ls = c.loop('', 0)
 ls.havoc = {'i': 'int', 'full_name': 'str'}
+
+
+# c_find (C16): the one-call convenience wrapper re-yields what the C-FIND user service yields -- every pair
+# exactly once, unchanged, in order (per iteration: exactly one yield, and it is the pair just taken)
+c = contract('pynetdicom2.c_find')
+c.prop('C16')
+ls = c.loop('', 0)
+ls.for_prop('C16', head=['_t0 = trace_len()'],
+            tail=['_y = events_since(_t0, "gen-yield")',
+                  'oblige("one-yield-per-result", len(_y) == 1)',
+                  'oblige("yields-the-result-unchanged", len(_y) != 1 or (_y[0][2][0] == result and _y[0][2][1] == status))'])
